@@ -223,6 +223,10 @@ def run_c02(ck, fb, fbd):
         cores[kind] = cand[0]
     ck.analysed["delete_cores"] = {k: f.name for k, f in cores.items()}
     gc_rules(c, cores)
+    # a rebuilt cache that lists pending deletions, or a reset of an entry the cell no longer owns, makes the deletion
+    # closure delete an entity twice / miss a live one (counts and genus go wrong): shared with C01/C04
+    owner_rule(c, cores, elem_effects(c))
+    compute_rule(c)
     gc = find_gc(c)
     core_ids = {f.id: k for k, f in cores.items()}
 
@@ -445,6 +449,8 @@ def run_c03(ck, fb, fbd):
     c = Ctx(ck, fb)
     ck.rule("L.props", "every grow/erase/clear of a definition array is matched, under identical mode conditions and for the same position, by the property notification of that kind (resize_Kprops / K_deleted / resize_Kprops(0)) - and vice versa")
     lockstep(c, "L.props", ("grow", "erase", "clear"), {"props"}, skip_fns=("collapse_edge",))
+    ck.rule("L.swap", "each swap_K_indices swaps the property elements of K and of both half-kinds side by side together with the definition, under identical conditions")
+    lockstep(c, "L.swap", ("swap",), {"props"}, skip_fns=("collapse_edge",))
     rm_rules(ck, fb)
 
 
